@@ -53,7 +53,7 @@ class C19(SCheck):
     N = {"quick": 300, "thorough": 8000}
     K = {"quick": 1, "thorough": 1}
     needs_probe = True
-    technique = "deterministic simulation of an API probe calling libfs under emulated FIEMAP paging variants and native SEEK_DATA/SEEK_HOLE; data map read back from the file as oracle; seeded sampling for merge_extents"
+    technique = "deterministic simulation of an API probe calling libfs under emulated FIEMAP paging variants and native SEEK_DATA/SEEK_HOLE; data map read back from the file as oracle; one injected errno at sampled lseek/FIEMAP calls; seeded sampling for merge_extents"
     rule = ("case = file layout with 0, 1, 31, 32, 33 .. 100 data runs (and, once per 150 cases, more than 8192 extents), data at the very start/end, sizes not multiples of 4 KiB, x FIEMAP answered "
             "by the simulated kernel (whole extents / split into adjacent 4-8 KiB extents / last extent rounded past EOF / EOPNOTSUPP) ; the "
             "probe prints map_extents, merge_extents(map_extents) and the next_sparse_segments walk; oracle: ranges ordered and non-overlapping "
